@@ -99,6 +99,13 @@ fn simpler_step(s: &Step) -> Vec<Step> {
         SubRead(j) => out.push(SubGet(*j)),
         UpgradeKeep(k) => out.push(UpgradeDrop(*k)),
         Park(j) => out.push(SubDrop(*j)),
+        Burst(i, a, b, c) => {
+            for (x, y, z) in [(a / 2, *b, *c), (*a, b / 2, *c), (*a, *b, c / 2), (0, *b, *c), (*a, 0, *c), (*a, *b, 0)] {
+                if (x, y, z) != (*a, *b, *c) {
+                    out.push(Burst(*i, x, y, z));
+                }
+            }
+        }
         CountsGuarded(i, n, m) => {
             if *n > 0 {
                 out.push(CountsGuarded(*i, n - 1, *m));
